@@ -161,7 +161,13 @@ func (s *PutStmt) validateKVPair(kv *PutKVPair, ctx *CheckCtx) error {
 }
 
 func (s *DeleteStmt) Validate(ctx *CheckCtx) error {
-	return s.Where.Expr.Check(ctx)
+	if err := s.Where.Expr.Check(ctx); err != nil {
+		return err
+	}
+	if s.Where.Expr.ReturnType() != TBOOL {
+		return NewSyntaxError(s.Where.Expr.GetPos(), "where statement result type should be boolean")
+	}
+	return nil
 }
 
 // checkFieldCycles rejects select fields that are defined in terms of themselves
